@@ -338,6 +338,15 @@ func commuteCheck(mc *modeCtx, fi *FuncInfo, s *ast.RangeStmt, key string) (item
 	out := &Outcomes{}
 	mt := types.Unalias(info.TypeOf(s.X)).Underlying().(*types.Map)
 	m := x.eval(st, fr, out, s.X)
+	// the loop's own invariants (proved with the function) describe the states in which the body runs
+	if ls, _ := x.loopSpecFor(fr, s); ls != nil {
+		env := x.newSpecEnvFrame(st, fr, s.Pos())
+		env.old = st
+		env.loopOld = st
+		for _, inv := range ls.Invs {
+			st.assume(env.evalBool(inv.Expr))
+		}
+	}
 	ks := x.tm.SortOf(mt.Key())
 	k1, k2 := x.ctx.Fresh("k1", ks), x.ctx.Fresh("k2", ks)
 	domH := x.get(st, mapDomKey(ks), ArrSort(SRef, ArrSort(ks, SBool)))
@@ -392,6 +401,10 @@ func commuteCheck(mc *modeCtx, fi *FuncInfo, s *ast.RangeStmt, key string) (item
 	sort.Strings(cmpKeys)
 	hyps := append(a.hyps(), b.hyps()...)
 	stc := &State{facts: hyps, env: map[string]*Term{}}
+	// vacuity guard: both executions together must be feasible
+	cov := x.emit(stc, name+"/cover", "cover", TFalse, s.Pos(), "both orders of the two iterations are feasible (must NOT be unsat)")
+	cov.Cover = true
+	mc.obls = append(mc.obls, cov)
 	n := 0
 	for _, k := range cmpKeys {
 		if k == allocKey || k == arrAllocKey {
@@ -480,36 +493,87 @@ func modeMonitorFrame(mc *modeCtx) []*checkItem {
 // caller-owned data ([]string / [][]string elements, map[string]Size)
 
 func modeArgsFrame(mc *modeCtx) []*checkItem {
-	root, ok := mc.pr.Funcs["autog.Layout"]
-	if !ok {
-		return []*checkItem{failItem("args.frame/root", "frame", "autog.Layout not found", "")}
+	reach, bad := mc.layoutReach()
+	if bad != nil {
+		return []*checkItem{bad}
 	}
-	regs := mc.eff.Of(root).regions
-	var items []*checkItem
-	bad := false
-	for r := range regs {
-		switch {
-		case r == elemsKey(SStr):
-			// writes to []string elements: Populate builds no []string; any write is suspicious
-			items = append(items, failItem("args.frame/"+r, "frame", "Layout's call graph writes elements of a []string (the caller's edge list has that element type)", ""))
-			bad = true
-		case r == elemsKey(SSlice):
-			items = append(items, failItem("args.frame/"+r, "frame", "Layout's call graph writes elements of a slice of slices (the caller's edge list has that type)", ""))
-			bad = true
-		case strings.HasPrefix(r, "MapVal$Str$") || r == mapDomKey(SStr):
-			// map[string]... writes: Populate's nodeMap is map[string]*Node (value sort Ref); the caller's size map is map[string]Size
-			if strings.HasPrefix(r, "MapVal$Str$St_") {
-				items = append(items, failItem("args.frame/"+r, "frame", "Layout's call graph writes a map[string]struct (the caller's size map has that type)", ""))
-				bad = true
+	// Go types of the caller-owned data: []string (an edge), [][]string / EdgeSlice (the edge list), map[string]Size
+	callerOwned := func(t types.Type) string {
+		switch u := types.Unalias(t).Underlying().(type) {
+		case *types.Slice:
+			if isString(u.Elem()) {
+				return "[]string"
+			}
+			if in, ok := types.Unalias(u.Elem()).Underlying().(*types.Slice); ok && isString(in.Elem()) {
+				return "[][]string"
+			}
+		case *types.Map:
+			if isString(u.Key()) {
+				if st, ok := types.Unalias(u.Elem()).Underlying().(*types.Struct); ok && st.NumFields() == 4 {
+					return "map[string]Size"
+				}
 			}
 		}
+		return ""
 	}
-	if !bad {
-		var rs []string
-		for r := range regs {
-			rs = append(rs, r)
+	var items []*checkItem
+	n := 0
+	var keys []string
+	for fi := range reach {
+		keys = append(keys, fi.Key)
+	}
+	sort.Strings(keys)
+	for _, k := range keys {
+		fi := mc.pr.Funcs[k]
+		info := fi.Pkg.TypesInfo
+		n++
+		flag := func(pos token.Pos, what, ty string) {
+			items = append(items, failItem(fmt.Sprintf("args.frame/%s/%s", k, mc.pos(pos)), "frame", what+" a "+ty+" in "+k+": the caller's edge list / size map has that type and must only be read", mc.pos(pos)))
 		}
-		items = append(items, okItem("args.frame/layout", "frame", fmt.Sprintf("inferred write set of Layout (%d regions) contains no []string element, [][]string element or map[string]Size region", len(rs))))
+		ast.Inspect(fi.Decl.Body, func(nd ast.Node) bool {
+			switch s := nd.(type) {
+			case *ast.AssignStmt:
+				for _, l := range s.Lhs {
+					if ix, ok := ast.Unparen(l).(*ast.IndexExpr); ok {
+						if ty := callerOwned(info.TypeOf(ix.X)); ty != "" {
+							flag(l.Pos(), "element assignment into", ty)
+						}
+					}
+				}
+			case *ast.IncDecStmt:
+				if ix, ok := ast.Unparen(s.X).(*ast.IndexExpr); ok {
+					if ty := callerOwned(info.TypeOf(ix.X)); ty != "" {
+						flag(s.Pos(), "element update of", ty)
+					}
+				}
+			case *ast.CallExpr:
+				fun := ast.Unparen(s.Fun)
+				if id, ok := fun.(*ast.Ident); ok {
+					if b, ok := info.Uses[id].(*types.Builtin); ok && len(s.Args) > 0 {
+						switch b.Name() {
+						case "append", "copy", "delete", "clear":
+							if ty := callerOwned(info.TypeOf(s.Args[0])); ty != "" {
+								flag(s.Pos(), b.Name()+" on", ty)
+							}
+						}
+					}
+				}
+				if se, ok := fun.(*ast.SelectorExpr); ok {
+					if fn, ok := info.Uses[se.Sel].(*types.Func); ok && fn.Pkg() != nil && len(s.Args) > 0 {
+						switch fn.Pkg().Path() + "." + fn.Name() {
+						case "sort.Slice", "sort.SliceStable", "sort.Strings", "slices.Reverse", "slices.Sort", "maps.Copy", "maps.DeleteFunc":
+							if ty := callerOwned(info.TypeOf(s.Args[0])); ty != "" {
+								flag(s.Pos(), fn.Name()+" on", ty)
+							}
+						}
+					}
+				}
+			}
+			return true
+		})
+	}
+	if len(items) == 0 {
+		items = append(items, okItem("args.frame/layout", "frame", fmt.Sprintf("%d functions reachable from Layout: no element assignment, append, copy, sort, delete or clear on a []string, [][]string or map[string]Size", n)))
 	}
 	return items
 }
